@@ -15,8 +15,11 @@ FIXED = True      # awake schedule: a bias/variable with factor n is asleep at a
 EFIX = True       # energy of a bias that applies no force is not reported to the engine
 
 
+_SCALE = [1.0]     # magnitude of the forces/energies of the scenario being compared (force constants scaled by 2^-27 .. 2^27)
+
+
 def close(a, b, tol=TOL):
-    return abs(a - b) <= tol * max(1.0, abs(a), abs(b))
+    return abs(a - b) <= tol * max(_SCALE[0], abs(a), abs(b))
 
 
 def hx(x):
@@ -425,8 +428,14 @@ def gen_scenario(r, k, family="mix"):
             m[r.randrange(nb)] = not m[0]
         A = [j for j in range(nb) if m[j]]
         B = [j for j in range(nb) if not m[j]]
+    kscale = 1.0
+    if family in ("mix", "impulse") and r.random() < 0.12:
+        # data 1e-8 .. 1e8 times the usual size (exact powers of two): every force constant is scaled, comparisons are relative to the scale
+        kscale = 2.0 ** r.choice([-27, -13, 13, 27])
+        for b in biases:
+            b["k"] = b["k"] * kscale
     return {"id": k, "family": family, "natoms": natoms, "mass": mass, "vars": vars_, "biases": biases, "it0": it0,
-            "events": events, "A": A, "B": B, "perm_run": family == "mix" and r.random() < 0.4}
+            "events": events, "A": A, "B": B, "perm_run": family == "mix" and r.random() < 0.4, "kscale": kscale}
 
 
 # ------------------------------------------------------------------ python specification of the property
@@ -1308,6 +1317,7 @@ def check(run):
         impl, mod, (rc, err) = run_batch(unit, model, batch, d)
         for sc in batch:
             subsets = sc["_subsets"]
+            _SCALE[0] = sc.get("kscale", 1.0)
             R = {}
             ok = True
             for t, sub in subsets.items():
